@@ -3,9 +3,9 @@
    event_handler, defaults, required), check_for_invalid_sections, build_spec and the section loop
    of _validate_config.  The time validators call the TRANSLATED gen/Time.v.
 
-   The model is of the code WITH the proposed fixes fixes/C12-*.patch applied (range check written
-   as `not value >= min`, pow2 returns int(item)); the time-string fixes are picked up by the
-   translator.  Definitions only; proofs are in Lemmas.v.                                        *)
+   The model is of the code as it is after the fix commits d658b1b (time strings; picked up by the
+   translator) and 5a156f6 (range check written as `not value >= min`).  pow2 is modelled AS THE CODE
+   IS: the item is returned unconverted (known finding pow2-returns-unconverted).  Definitions only; proofs are in Lemmas.v.                                        *)
 From Common Require Import Prelude.
 From Coq Require Import QArith.
 From C12 Require Import Base.
@@ -298,10 +298,13 @@ Fixpoint validate_scalar (m : machine) (k : vkind) (param : option str) (item : 
            end
   | KBoolInt => bindR (v_bool item) (fun b => Ok (YInt (b2z (truthy b))))
   | KPow2 =>
+      (* _validate_type_pow2: Util.is_power2(item) converts with int() (TypeError/ValueError -> not a power
+         of two) but the validator then returns ITEM ITSELF, unconverted (recorded finding
+         pow2-returns-unconverted) *)
       match item with
       | YNone => Ok YNone
       | _ => match to_int item with
-             | Ok z => if is_pow2 z then Ok (YInt z) else Err (ECfg 5)
+             | Ok z => if is_pow2 z then Ok item else Err (ECfg 5)
              | Err (ECfg _) => Err (ECfg 5)
              | Err e => Err e
              end
@@ -672,7 +675,13 @@ Fixpoint has_kind (m : machine) (k : vkind) (param : option str) (r : yv) : bool
   | KList => match r with YList _ => true | _ => false end
   | KDict => match r with YDict _ => true | _ => false end
   | KBoolInt => match r with YInt z => (z =? 0) || (z =? 1) | _ => false end
-  | KPow2 => match r with YNone => true | YInt z => (0 <? z) && (z =? 2 ^ Z.log2 z) | _ => false end   (* an int that IS a power of two *)
+  | KPow2 =>
+      (* what is actually returned: a value WHOSE int() IS a power of two (an int, but also "8", 8.0, 2.5,
+         True): weaker than the declared type "int that is a power of two", see pow2_type_refuted *)
+      match r with
+      | YNone => true
+      | _ => match to_int r with Ok z => (0 <? z) && (z =? 2 ^ Z.log2 z) | Err _ => false end
+      end
   | KEnum => match r, param with
              | YNone, _ => true
              | YStr s, Some p => mem_str s (split_on 44 (lower p))
@@ -686,6 +695,10 @@ Fixpoint has_kind (m : machine) (k : vkind) (param : option str) (r : yv) : bool
   | KTok k' => match r with YToken _ => true | _ => has_kind m k' param r end
   | KUnmodelled | KUnknown => false
   end.
+
+(* the DECLARED type of pow2: None or an int that is a power of two *)
+Definition is_pow2_int (r : yv) : bool :=
+  match r with YNone => true | YInt z => (0 <? z) && (z =? 2 ^ Z.log2 z) | _ => false end.
 
 Definition has_type (m : machine) (validator : str) (r : yv) : bool :=
   let '(name, param) := parse_validator validator in has_kind m (kind_of name) param r.
